@@ -197,7 +197,7 @@ func newWorldSpec(id int, r *rand.Rand) *worldSpec {
 	g.def("tuple", "T_FLAT", brack("(", append(g.ints(1+r.Intn(4)), quote(g.word(true)), "2.5"), ")"))
 	g.def("tuple", "T_NEST", "(L_INT, D_STR, S_INT, (L_NEST, T_FLAT), D_MIX)")
 	g.def("tuple", "T_EMPTY", "()")
-	g.def("tuple", "T_HASH", brack("(", []string{"T_FLAT", "BIG", quote(g.word(true)), "(T_FLAT, (NEG,))", "RNG"}[:2+r.Intn(4)], ")"))
+	g.def("tuple", "T_HASH", brack("(", []string{"T_FLAT", "BIG", quote(g.word(true)), "(T_FLAT, (NEG,))", "FLT"}[:2+r.Intn(4)], ")"))
 
 	// functions, closures with captured state, mutable-looking defaults
 	g.b.WriteString(`
@@ -283,6 +283,7 @@ def f_globals():
 	// structs
 	g.def("struct", "ST", "struct(a = 1, b = "+quote(g.word(true))+", l = L_INT, d = D_STR, s = S_INT, t = T_FLAT)")
 	g.def("struct", "ST_H", "struct(x = "+fmt.Sprint(r.Intn(50))+", y = "+quote(g.word(true))+", z = (1, 2), big = BIG, t = T_HASH)")
+	g.def("struct", "ST_H2", "struct(p = ST_H, q = (1, "+quote(g.word(true))+"), r = struct(deep = T_HASH))")
 	g.def("struct", "ST_NEST", "struct(inner = ST, h = ST_H, f = f_plain, add = ADD, m = L_INT.index)")
 
 	// bound methods (each holds a reference to its shared receiver)
